@@ -97,6 +97,37 @@ def make_case(r):
                 f'count:declare-const>=1 &')
         rules = realrun.simple_spec(pred)
         chain = 'late'
+    if chain is None and r.random() < 0.12:
+        # Indexed identifiers and a grep-like command: the numerals of
+        # (_ bv5 8) or (_ extract 7 0) leave their context when '_' is erased
+        # or the list is replaced by a child; whatever ddSMT remembered
+        # about them must not outlive the input it was collected from (the
+        # second run, a fresh process, is the judge)
+        w = r.choice([4, 8, 16])
+        n1, k1, k2 = r.randint(2, 9), r.randint(2, 7), r.randint(2, 5)
+        forms = [(f'(_ bv{n1} {w})', f'bv{n1}', str(w)),
+                 (f'((_ extract {w - 1} {r.randint(1, w - 2)}) v)',
+                  'extract', str(w - 1)),
+                 (f'((_ zero_extend {k1}) v)', 'zero_extend', str(k1)),
+                 (f'((_ rotate_left {k1}) v)', 'rotate_left', str(k1)),
+                 (f'((_ repeat {k2}) v)', 'repeat', str(k2))]
+        picked = r.sample(forms, r.randint(1, 3))
+        lines = [f'(declare-const v (_ BitVec {w}))'] + [
+            f'(assert (distinct v {t}))' if k.startswith('bv')
+            or k == 'rotate_left'
+            else f'(assert (= #b1 ((_ extract 0 0) {t})))'
+            for t, k, _ in picked] + ['(check-sat)']
+        text = '\n'.join(lines) + '\n'
+        # the name has to stay, and the numeral that was its index may only
+        # stay as it is or become 1 (what Constants proposes for a numeral
+        # outside an index position; halving it is not accepted), and so
+        # many tokens have to stay that it is not simply erased
+        _, name, num = r.choice(picked)
+        ntok = len(workload.tokens_of(text))
+        pred = (f'has:{realrun.pct(name)} has:{num} has:1 | & '
+                f'ntok>={r.randint(ntok // 4, ntok // 2)} &')
+        rules = realrun.simple_spec(pred)
+        chain = 'indexed'
     if chain is None and r.random() < 0.15:
         # A proposal that only the first (prelude) pass can make - binary
         # reduction restricted to assert commands - becomes applicable after
@@ -127,7 +158,7 @@ def make_case(r):
         rules = realrun.simple_spec(pred)
         chain = 'prelude'
     strat = r.choice(['hierarchical', 'hybrid'])
-    if chain:
+    if chain and chain != 'indexed':
         strat = 'hierarchical'
     j = r.choice([1, 2, 4, 8])
     slow_accept = False
@@ -152,7 +183,7 @@ def make_case(r):
     toggles = []
     if chain == 'prelude':
         groups = [f'--no-{g}' if g != 'core' else '--core' for g in GROUPS]
-    elif chain and r.random() < 0.5:
+    elif chain and chain != 'indexed' and r.random() < 0.5:
         groups = [f'--no-{g}' for g in GROUPS] + ['--erase-node']
         if chain == 'string':
             groups += ['--str-constants']
@@ -241,7 +272,8 @@ def run_case(res, base, case, idx, second_run):
                 f'({a["kind"]}) at node {a["node"]!r} is still accepted by '
                 f'the command', witness)
             return
-        if second_run and run.out_bytes is not None:
+        if (second_run or desc.get('chain') == 'indexed') and \
+                run.out_bytes is not None:
             res.count('second_runs')
             groups = [o for o in desc['mutator_options']]
             opts2 = ['--strategy', 'hierarchical', '-j', '1', '--timeout',
